@@ -90,3 +90,12 @@ Theorem C11_status_priorities_match_source :
   /\ status_priority_default = bs_priority Healthy.
 Proof. exact status_priorities_match_source. Qed.
 Print Assumptions C11_status_priorities_match_source.
+
+(* ---- the defect found in the unchanged repository, as a kernel-checked refutation of the original code ---- *)
+From LD Require Import Legacy.
+Theorem C11_legacy_refuted :
+  nqueries (snd (eval_flag_legacy store11 prov11 (CSingle user_a) 4 [] (mkbf (s "f0") [mkprereq (s "f1") 1]) st0)) = 2%nat /\
+  nqueries (snd (eval_flag (fun _ => false) (fun _ _ => false) no_opts store11 prov11 (CSingle user_a) 4 []
+                   (mkbf (s "f0") [mkprereq (s "f1") 1]) st0)) = 1%nat.
+Proof. exact Legacy.C11_legacy_refuted. Qed.
+Print Assumptions C11_legacy_refuted.
